@@ -215,10 +215,36 @@ func groundVersion(o *Oblig, lits []*Term) *Oblig {
 	}
 	cands := map[Sort]map[string]*Term{}
 	collectCandidates([]*Term{goal}, cands, 40)
+	// the goal's own terms (and those of its guards): the fallback candidate set for a hypothesis with several bound variables whose
+	// full cartesian product is too large
+	goalCands := map[Sort]map[string]*Term{}
+	collectCandidates([]*Term{goal}, goalCands, 40)
+	collectCandidates(extra, goalCands, 40)
 	collectCandidates(ground, cands, 60)
 	seen := map[string]bool{}
 	var instances []*Term
 	total := 0
+	// hypotheses with fewer bound variables first: their instances are few, and the cap on the total must not be used up by the
+	// cartesian products of the others before they are reached
+	// ... and among those with the same number, the ones that talk about the goal's heaps and functions first
+	goalSyms := map[string]bool{}
+	symbolsOf(goal, goalSyms)
+	rel := map[*Term]int{}
+	for _, q := range quant {
+		qs := map[string]bool{}
+		symbolsOf(q, qs)
+		for n := range qs {
+			if goalSyms[n] {
+				rel[q]++
+			}
+		}
+	}
+	sort.SliceStable(quant, func(i, j int) bool {
+		if len(quant[i].Bound) != len(quant[j].Bound) {
+			return len(quant[i].Bound) < len(quant[j].Bound)
+		}
+		return rel[quant[i]] > rel[quant[j]]
+	})
 	for round := 0; round < 2; round++ {
 		var newInst []*Term
 		for _, q := range quant {
@@ -235,6 +261,21 @@ func groundVersion(o *Oblig, lits []*Term) *Oblig {
 					lists[i] = append(lists[i], cands[b.Sort][k])
 				}
 				n *= len(lists[i])
+			}
+			if n > 2500 && len(q.Bound) > 1 {
+				n = 1
+				for i, b := range q.Bound {
+					lists[i] = nil
+					var keys []string
+					for k := range goalCands[b.Sort] {
+						keys = append(keys, k)
+					}
+					sort.Strings(keys)
+					for _, k := range keys {
+						lists[i] = append(lists[i], goalCands[b.Sort][k])
+					}
+					n *= len(lists[i])
+				}
 			}
 			if n == 0 || n > 2500 {
 				continue
